@@ -19,7 +19,7 @@ ASSUMPTIONS = ["exponents >= 1.1 for powerlaw_sample so that the float transform
                "7-sigma normal threshold on sums of >= 300 hypergeometric draws; the default seed makes the run deterministic"]
 EXHAUSTIVE = {"quick": ["subsample: every count vector of length<=3 with entries<=3 x every n in 0..total (one seed each)"],
               "thorough": ["subsample: every count vector of length<=4 with entries<=3 x every n in 0..total x 3 seeds"]}
-REQUIRE = {"subsample_cases": 200, "subsample_n_equals_total": 10, "subsample_n_zero": 10, "subsample_too_many_raises": 10,
+REQUIRE = {"mle_exact_given_bounds": 11, "powerlaw_heavy_tail_cases": 2, "subsample_cases": 200, "subsample_n_equals_total": 10, "subsample_n_zero": 10, "subsample_too_many_raises": 10,
            "downsample_cases": 30, "downsample_identity": 10, "downsample_subsampled": 17, "downsample_table": 10, "downsample_table_duplicated_index": 5,
            "powerlaw_sample_cases": 15, "mle_closed_form_cases": 12, "mle_exact_cases": 10, "uniformity_tests": 4}
 SHARDS = {"quick": 4, "thorough": 16}
@@ -171,6 +171,8 @@ def k_powerlaw_sample(ctx, size, xmin, alpha, np_seed):
     ctx.count("powerlaw_sample_cases")
     ctx.nontriv(["pls", size, xmin, alpha, np_seed])
     ctx.sample("powerlaw_sample", {"size": size, "xmin": xmin, "alpha": alpha})
+    if alpha <= 1.2 and size >= 2000:
+        ctx.count("powerlaw_heavy_tail_cases")
     np.random.seed(np_seed)
     out = ctx.call(prs.powerlaw_sample, size=size, xmin=xmin, alpha=alpha)
     if not out.ok:
@@ -275,6 +277,9 @@ def generate(tier, seed):
         seqs = G.small_multiset(rng, pools[i % 2], 1, 30)
         maxseqs = rng.choice([None, 0, 1, 2, 3, 5, 10, len(seqs), len(seqs) - 1 if len(seqs) > 1 else 1, 100])
         yield "downsample", {"seqs": seqs, "maxseqs": maxseqs, "container": ["list", "ndarray", "table", "series", "table_dupindex"][i % 5], "np_seed": seed * 13 + i}, i < 60
+    # heavy tails: exponents close to 1 with thousands of draws (values far beyond 2^63 occur in every such sample)
+    for j, (al, size, xm) in enumerate([(1.1, 3000, 1), (1.05, 2000, 1), (1.1, 3000, 5), (1.15, 5000, 2), (1.2, 40000, 1)]):
+        yield "powerlaw_sample", {"size": size, "xmin": xm, "alpha": al, "np_seed": seed * 19 + j}, True
     for i in range(600 * TS if thorough else 50):
         yield "powerlaw_sample", {"size": rng.choice([0, 1, 2, 10, 1000]), "xmin": rng.choice([1, 1, 2, 5, 30]),
                                   "alpha": rng.choice([1.1, 1.5, 2.0, 2.5, 3.0, 6.0]), "np_seed": seed * 17 + i}, i < 30
